@@ -7,7 +7,7 @@
    "fix:" commits 4decfd1 (empty node ID rejected) and 6afcbbe (connection removed on every exit
    after admission); tied to the code by `./check C11`. *)
 From Coq Require Import String.
-From Receptor Require Import Model.Admit Proofs.Proto Proofs.Admit.
+From Receptor Require Import Model.Admit Model.AdmitHeld Proofs.Proto Proofs.Admit Proofs.AdmitHeld.
 Open Scope list_scope.
 Open Scope N_scope.
 
@@ -136,6 +136,35 @@ Theorem split_check_and_insert_refuted :
   snd st = [SHolding id (Dy false 1 0); SHolding id (Dy false 1 0)] /\ List.length (fst st) = 1%nat.
 Proof. exact split_admission_refuted. Qed.
 Print Assumptions split_check_and_insert_refuted.
+
+(* the window between the END of a session and its loop noticing it (the loop is inside a message
+   handler: firewall rule, slow local service): Model/AdmitHeld.v.  With the code's test (an ID
+   that has an entry is taken, whatever the state of its owner), for every schedule of handshakes,
+   ends and late clean-ups of any number of sessions, every session registered under an ID owns
+   the entry of that ID — a registered session is always listed, and no two share an ID *)
+Theorem held_end_holder_owns_entry : forall n ls i id a,
+  let st := held_run false (held_init n) ls in
+  nth_error (snd st) i = Some (HHolding id a) -> aget (fst st) id = Some i.
+Proof. exact strict_holder_owns_entry. Qed.
+Print Assumptions held_end_holder_owns_entry.
+
+Theorem held_end_one_holder_per_id : forall n ls i j id a b,
+  let st := held_run false (held_init n) ls in
+  nth_error (snd st) i = Some (HHolding id a) -> nth_error (snd st) j = Some (HHolding id b) -> i = j.
+Proof. exact strict_one_holder_per_id. Qed.
+Print Assumptions held_end_one_holder_per_id.
+
+(* a test that does not count an entry whose owner's context has ended (removeConnection still
+   deletes by ID): the old loop's clean-up deletes the reconnected session's entry — alive and not
+   listed — and a third session is established next to it (the harness's held-end phase plays
+   this schedule on the implementation) *)
+Theorem held_end_lenient_test_refuted :
+  let x := str "xray"%string in
+  held_run true (held_init 3) [HHs 0 x; HEnd 0; HHs 1 x; HCleanup 0] = ([], [HGone; HHolding x true; HInit]) /\
+  held_run true (held_init 3) [HHs 0 x; HEnd 0; HHs 1 x; HCleanup 0; HHs 2 x]
+    = ([(x, 2%nat)], [HGone; HHolding x true; HHolding x true]).
+Proof. exact lenient_test_refuted. Qed.
+Print Assumptions held_end_lenient_test_refuted.
 
 (* the sequential model of one session (Model/Proto.v, tied to the code byte for byte by C07 and
    C11 cases) is the composition of this file's atomic steps *)
